@@ -37,7 +37,9 @@ func cmdConformance() int {
 		Executions map[string]int      `json:"executions"`
 		Expect     map[string][]string `json:"expect"`
 	}
-	load := func(bin string, args ...string) ([]byte, error) { return exec.Command(filepath.Join(dir, bin), args...).Output() }
+	load := func(bin string, args ...string) ([]byte, error) {
+		return exec.Command(filepath.Join(dir, bin), args...).Output()
+	}
 	var pruned, full mcOut
 	real := map[string][]string{}
 	o1, err := load("litmus-mc")
